@@ -205,15 +205,19 @@ class BGPPeering(BGPFactory):
         """
 
         LOG.info("[%s]Connection closed", self.peer_addr)
+        # a manual start may already have begun a new attempt before the close
+        # of the old connection completed; that attempt owns the FSM now
+        new_attempt = self.connector is not None and self.connector.state == 'connecting'
         if pro is not None:
             # Connection succeeded previously, protocol exists
             # Remove the protocol, if it exists
             if pro is self.estab_protocol:
                 self.estab_protocol = None
-                # self.fsm should still be valid and set to ST_IDLE
-                self.fsm.state = bgp_cons.ST_IDLE
+                if not new_attempt:
+                    # self.fsm should still be valid and set to ST_IDLE
+                    self.fsm.state = bgp_cons.ST_IDLE
 
-        if self.fsm.allow_automatic_start:
+        if self.fsm.allow_automatic_start and not new_attempt:
             self.automatic_start(idle_hold=True)
 
     def connect_retry(self):
